@@ -37,6 +37,9 @@ def dtype_of_elems(elems):
     return numpy.dtype(object)
 
 
+ARRAY_TRUTH_IS_ERROR = [False]
+
+
 class SymArray:
     _symarray = True
     __hash__ = None
@@ -81,6 +84,11 @@ class SymArray:
         return f"SymArray<{self.dtype}>({self.e})"
 
     def __bool__(self):
+        if ARRAY_TRUTH_IS_ERROR[0] and len(self.e) != 1:
+            # numpy: "The truth value of an array with more than one element is ambiguous" -- a loud failure of the
+            # path that reaches it (enabled by the checks that execute user code on arrays, i.e. C09)
+            R.CTX.err(True, "ValueError(truth value of an array)")
+            raise R.PathEnd()
         raise Unsupported("truth value of a symbolic array used natively")
 
     def tolist(self):
